@@ -213,7 +213,7 @@ def _role(fi, e: ast.AST, ff=None, site=None) -> str:
         return "stored"
     if isinstance(e, ast.Name):
         for c in walk_local(fi.node):
-            if isinstance(c, ast.comprehension) and norm(c.target) == e.id:
+            if isinstance(c, (ast.comprehension, ast.For)) and norm(c.target) == e.id:
                 it = norm(expand(fi.node, c.iter))
                 return "stored" if ("_children" in it or "_VERSIONS" in it) else "unknown"
     return "unknown"
